@@ -59,7 +59,7 @@ def model(seq):
 def chunks(tier, seed):
     out = []
     for d in fp.CTX:
-        for pos in ("top", "from_sub", "join_sub", "in_sub", "setop_operand", "setop_chain_operand", "setop_chain_operand_union", "setop_self",
+        for pos in ("top", "from_sub", "join_sub", "in_sub", "setop_operand", "setop_base_operand", "setop_chain_operand", "setop_chain_operand_union", "setop_self",
                     "setop_self_ordered_operand"):
             for order in (False, True):
                 out.append({"d": d, "pos": pos, "order": order, "depth": 2 if tier == "quick" else 3})
@@ -259,6 +259,9 @@ def build_case(d, pos, order, seq):
                           ["where", ["logic", "AND", ["insub", ["f", "t", "a"], inner], ["cmp", "<", ["f", "t", "b"], ["raw", 8001]]]]]}
     if pos == "setop_operand":
         return {"calls": [["from", T], ["select", [["f", "t", "b"]]], ["union_all", inner]]}
+    if pos == "setop_base_operand":
+        # the paginated query is the FIRST operand; the set operation itself carries no limit / offset
+        return {"calls": inner["calls"] + [["union_all", {"calls": [["from", T], ["select", [["f", "t", "b"]]]]}]]}
     if pos.startswith("setop_chain_operand"):
         # the paginated thing is itself a set operation and is handed to the second call of a chain of the same operator
         op = "union" if pos.endswith("_union") else "union_all"
@@ -309,6 +312,35 @@ def run_case(case):
             span = toks
         elif pos == "from_sub":
             span = paren_group_after(toks, "FROM")
+        elif pos == "setop_base_operand":
+            # the first parenthesised group (MySQL renders operands bare: everything before UNION); nothing of the row-limiting
+            # clause may follow the last operand
+            if toks and toks[0].kind == "OP" and toks[0].text == "(":
+                depth = 0
+                for j_, t_ in enumerate(toks):
+                    if t_.kind == "OP" and t_.text == "(":
+                        depth += 1
+                    elif t_.kind == "OP" and t_.text == ")":
+                        depth -= 1
+                        if depth == 0:
+                            break
+                span = toks[1:j_]
+                rest = toks[j_ + 1:]
+                depth, leak = 0, None
+                for t_ in rest:
+                    if t_.kind == "OP" and t_.text == "(":
+                        depth += 1
+                    elif t_.kind == "OP" and t_.text == ")":
+                        depth -= 1
+                    elif depth == 0 and t_.kind == "WORD" and t_.value in ("LIMIT", "OFFSET", "FETCH"):
+                        leak = t_.value
+                if leak:
+                    res.violate("C09|%s|setop|operand-limit-leaks" % d, "the row-limiting clause of the first operand is repeated for the whole set operation (%s)" % leak,
+                                dialect=d, position=pos, calls=seq, sql=sql)
+                    return res
+            else:
+                idx = next((i_ for i_, t_ in enumerate(toks) if t_.kind == "WORD" and t_.value == "UNION"), len(toks))
+                span = toks[:idx]
         elif pos == "join_sub":
             span = paren_group_after(toks, "JOIN")
         elif pos == "in_sub":
